@@ -191,8 +191,11 @@ def build_kwargs(problem, cfg, trace, hooks=None, checkpoint=None, x0=None):
     kw["fun"] = fun
     mode = cfg.get("jac", "callable")
     kw["jac"] = jac if mode == "callable" else mode
-    kw["x0"] = np.array(P.x0 if x0 is None else x0, dtype=float, copy=True)
-    kw["bounds"] = P.bounds.copy()
+    if x0 is not None and cfg.get("x0_same_object"):
+        kw["x0"] = x0  # the caller's own array (e.g. previous_result.x), not a copy
+    else:
+        kw["x0"] = np.array(P.x0 if x0 is None else x0, dtype=float, copy=True)
+    kw["bounds"] = hooks["bounds_obj"] if "bounds_obj" in hooks else P.bounds.copy()
     for k in ("maxcor", "maxls", "maxiter", "maxfun", "ftol", "eps", "finite_diff_rel_step", "iprint",
               "ftol_linesearch", "gtol_linesearch", "xtol_linesearch", "eps_SY", "max_steplength"):
         if k in cfg and cfg[k] is not None:
